@@ -1,6 +1,7 @@
 (* Streams of the C10 cone.
    rel-acc     : the accessor model (RelAcc) on the tree of the parser model, any text.
-   rel-acc-pre : the same with the parser / version() as they are before the proposed fix.
+   rel-acc-pre : the same with the parser / version() / architectures() as they were before the
+                 fixes 0eb8794, 43dd02f, 541b0f5 in /repo.
    rel-doc     : the model side is the SPECIFICATION (RelGrammar): the implementation is compared
                  with rcontent of the generated abstract field, i.e. with the right-hand sides
                  of the C10 theorems.
@@ -19,11 +20,11 @@ let ver_s = function
   | Base.OutOfFuel -> "HANG"
   | _ -> "PANIC"
 
-let relation_s version r =
+let relation_s (version, archs) r =
   let n = match RelAcc.relation_name r with Base.Ok s -> hx s | Base.OutOfFuel -> "HANG" | _ -> "PANIC" in
   let q = opt_hex (RelAcc.relation_archqual r) in
   let v = ver_s (version r) in
-  let a = match RelAcc.relation_architectures r with None -> "-" | Some l -> "+" ^ cat "." (L.map hx l) in
+  let a = match archs r with None -> "-" | Some l -> "+" ^ cat "." (L.map hx l) in
   let p = groups_s (RelAcc.relation_profiles r) in
   Printf.sprintf "n:%s,q:%s,v:%s,a:%s,p:%s" n q v a p
 
@@ -48,11 +49,11 @@ let lossless_part parse version s ~subst_free_only =
 
 let rel_acc (fs : string list) : string =
   let s = str_of_hex (L.nth fs 0) in
-  lossless_part RelParse.parse_relaxed RelAcc.relation_version s ~subst_free_only:false
+  lossless_part RelParse.parse_relaxed (RelAcc.relation_version, RelAcc.relation_architectures) s ~subst_free_only:false
 
 let rel_acc_pre (fs : string list) : string =
   let s = str_of_hex (L.nth fs 0) in
-  lossless_part RelParsePre.parse RelParsePre.relation_version_pre s ~subst_free_only:false
+  lossless_part RelParsePre.parse (RelParsePre.relation_version_pre, RelParsePre.relation_architectures_pre) s ~subst_free_only:false
 
 (* ---- decoding of the abstract field (vlib/gen_relgrammar.py: encode) ---- *)
 let unh s = if s = "-" then [] else str_of_hex s
@@ -85,8 +86,13 @@ let dec_rel = function
           | "e1" :: e :: r -> (Some (unh e), r)
           | _ -> failwith "bad epoch" in
         (match r with
-         | ver :: w3 :: r ->
-           (Some { v_ws0 = unh w0; v_ws1 = unh w1; v_op = dec_op op; v_ws2 = unh w2; v_epoch = e; v_ver = unh ver; v_ws3 = unh w3 }, r)
+         | ver :: n :: r ->
+           let (more, r) = take_n (int_of_string n) (function s :: r -> (unh s, r) | _ -> failwith "bad piece") r [] in
+           (match r with
+            | w3 :: r ->
+              (Some { v_ws0 = unh w0; v_ws1 = unh w1; v_op = dec_op op; v_ws2 = unh w2; v_epoch = e; v_ver = unh ver;
+                      v_more = more; v_ws3 = unh w3 }, r)
+            | _ -> failwith "bad version")
          | _ -> failwith "bad version")
       | _ -> failwith "bad version" in
     let (a, r) = match r with
@@ -134,7 +140,7 @@ let relx_s (x : relx) =
   let v = match x.x_ver with None -> "-" | Some (o, v) -> op_s o ^ "." ^ hx v in
   let a = match x.x_archs with
     | None -> "-"
-    | Some l -> "+" ^ cat "." (L.map (fun (neg, s) -> (if neg then "!" else "") ^ hx s) l) in
+    | Some l -> "+" ^ cat "." (L.map (fun a -> hx (arch_acc_text a)) l) in
   Printf.sprintf "n:%s,q:%s,v:%s,a:%s,p:%s" (hx x.x_name) (opt_hex x.x_qual) v a (groups_s x.x_profs)
 let content_s es = cat ";" (L.map (fun e -> cat "/" (L.map relx_s e)) es)
 
@@ -162,7 +168,7 @@ let rel_doc (fs : string list) : string =
    keep the executable model tied to the specification on every run as well *)
 let rel_doc_model (fs : string list) : string =
   let s = str_of_hex (L.nth fs 0) in
-  lossless_part RelParse.parse_relaxed RelAcc.relation_version s ~subst_free_only:(has_dollar s)
+  lossless_part RelParse.parse_relaxed (RelAcc.relation_version, RelAcc.relation_architectures) s ~subst_free_only:(has_dollar s)
 
 let () = register "rel-acc" rel_acc
 let () = register "rel-acc-pre" rel_acc_pre
